@@ -72,24 +72,13 @@ Theorem C30_cut_call : forall is_w is_sp c w a rest,
 Proof. exact cut_ok_call. Qed.
 Print Assumptions C30_cut_call.
 
-(* the cache: for every history of requests in which no request can hit an entry stored by a *different* statement
-   (no_collision: the exact complement of the known finding) every answer is what adapt_sql computes afresh *)
-Theorem C30_cache_except_known : forall is_w is_sp h, no_collision [] h ->
+(* the cache (entry stored under the key it is looked up with, /repo bfddd57): for EVERY history of requests against the
+   process-wide cache -- any statements, any paramstyles, any order, failing requests included -- every answer is what
+   adapt_sql computes afresh for that request *)
+Theorem C30_cache : forall is_w is_sp h,
   run_history is_w is_sp [] h = map (fun rq => adapt is_w is_sp (snd rq) (fst rq)) h.
 Proof. exact cache_transparent. Qed.
-Print Assumptions C30_cache_except_known.
-
-(* in particular: histories in which no statement sent to a format / pyformat provider contains a % *)
-Theorem C30_cache_percent_free : forall h,
-  (forall a, In a h -> is_fmt (snd a) = true -> mem_char 37 (fst a) = false) -> no_collision [] h.
-Proof. intros h H. exact (no_collision_percent_free h [] H). Qed.
-Print Assumptions C30_cache_percent_free.
-
-(* with the proposed one-token fix (store under the key that is looked up) the cache is transparent for every history *)
-Theorem C30_cache_fixed : forall is_w is_sp h,
-  run_history_fixed is_w is_sp [] h = map (fun rq => adapt is_w is_sp (snd rq) (fst rq)) h.
-Proof. intros is_w is_sp h. apply cache_fixed_transparent_gen. intros k v []. Qed.
-Print Assumptions C30_cache_fixed.
+Print Assumptions C30_cache.
 
 (* non-vacuity:  select $x, $(y[1]) ;  where a=$$  under numeric and pyformat *)
 Example C30_nonvacuous :
